@@ -417,6 +417,7 @@ SITE_FN = {
     'g_advance_guard': 'advance_round', 'g_advance_next': 'advance_round', 'g_two_chain': 'process_block', 'g_round_gate': 'process_block',
     'g_block_stake': 'block_verify', 'g_vote_stake': 'vote_verify', 'g_timeout_stake': 'timeout_verify',
     'g_qc_entry_stake': 'qc_verify', 'g_qc_weight': 'qc_verify', 'g_tc_entry_stake': 'tc_verify', 'g_tc_weight': 'tc_verify',
+    'g_qw_threshold': 'qw_loop', 'g_batch_full': 'bm_step', 'g_timer_seals': 'bm_step',
     'g_qcm_threshold': 'qcmaker_append', 'g_qcm_reset': 'qcmaker_append', 'g_tcm_threshold': 'tcmaker_append', 'g_tcm_reset': 'tcmaker_append',
 }
 
